@@ -386,10 +386,13 @@ func (c *VCtx) execInstr(fr *Frame, st *State, in ssa.Instruction, incoming map[
 	case *ssa.Go:
 		c.call(fr, st, &x.Call, nil, "go")
 	case *ssa.Defer:
-		fr.defers = append(fr.defers, &deferred{guard: st.pc, call: &x.Call, fr: fr})
+		fr.defers = append(fr.defers, &deferred{guard: st.pc, call: &x.Call, fr: fr, block: x.Block()})
 	case *ssa.RunDefers:
 		for i := len(fr.defers) - 1; i >= 0; i-- {
 			d := fr.defers[i]
+			if d.block != nil && d.block != x.Block() && !blockReaches(d.block, x.Block()) {
+				continue // registered on a path that cannot lead here: not pending at this return
+			}
 			if d.guard.S == st.pc.S || blockDominates(fr, d) {
 				c.call(fr, st, d.call, nil, "defer")
 			} else {
@@ -460,6 +463,11 @@ func (c *VCtx) execInstr(fr *Frame, st *State, in ssa.Instruction, incoming map[
 		c.fact(Not(c.isClosed(st, r)))
 		// where the channel was made never changes (madein(ch, "Func") in contracts)
 		c.fact(Eq(c.chanSite(r), IntLit(siteID(FuncKey(fr.fn)))))
+		if fr.contract != nil {
+			// ghost statements at "makechan N": chan denotes the new channel
+			fr.makechans++
+			c.runGhost(fr, st, fr.contract, fmt.Sprintf("makechan %d", fr.makechans), map[string]Val{"chan": r})
+		}
 		fr.env[x] = r
 	case *ssa.MakeClosure:
 		fv := &FnVal{Fn: x.Fn.(*ssa.Function)}
@@ -574,6 +582,33 @@ func (c *VCtx) execInstr(fr *Frame, st *State, in ssa.Instruction, incoming map[
 }
 
 func blockDominates(fr *Frame, d *deferred) bool { return false }
+
+// blockReaches: is there a control-flow path from a to b?
+func blockReaches(a, b *ssa.BasicBlock) bool {
+	seen := map[*ssa.BasicBlock]bool{}
+	var dfs func(x *ssa.BasicBlock) bool
+	dfs = func(x *ssa.BasicBlock) bool {
+		if x == b {
+			return true
+		}
+		if seen[x] {
+			return false
+		}
+		seen[x] = true
+		for _, s := range x.Succs {
+			if dfs(s) {
+				return true
+			}
+		}
+		return false
+	}
+	for _, s := range a.Succs {
+		if dfs(s) {
+			return true
+		}
+	}
+	return false
+}
 
 func (c *VCtx) explicitPanic(fr *Frame, st *State, x *ssa.Panic) {
 	// an explicit panic(...) is specified behaviour of the library unless the contract says "nopanic-explicit"
